@@ -245,38 +245,43 @@ func c11nGen(t *rapid.T) c11nCase {
 	for i, n := 0, rapid.IntRange(1, 2).Draw(t, "prefix"); i < n; i++ {
 		c.Ops = append(c.Ops, c11nOp{K: "issue", I: rapid.IntRange(0, 1).Draw(t, "i")})
 	}
-	n := rapid.IntRange(2, 14).Draw(t, "n")
 	kinds := []string{"issue", "reg-genuine", "reg-genuine", "reg-forged", "reg-forged", "reg-forged", "reg-forged", "verify", "verify", "verify", "reopen", "sc-before", "sc-forged-then-verify"}
-	mut := func(op *c11nOp) {
+	mut := func(t *rapid.T, op *c11nOp) {
 		if op.V == "tampered" {
 			m := jsonmut.Gen(t, "mut", nil, []string{"issuer", "subject", "date", "reason", "proof", "jws", "verificationMethod"})
 			op.Mut = &m
 		}
 	}
-	for len(c.Ops) < 20 && n > 0 {
-		n--
+	// a step is one op or a short scenario; steps are drawn as a slice so that rapid can delete them while shrinking
+	step := rapid.Custom(func(t *rapid.T) []c11nOp {
 		switch k := rapid.SampledFrom(kinds).Draw(t, "k"); k {
 		case "issue":
-			c.Ops = append(c.Ops, c11nOp{K: "issue", I: rapid.IntRange(0, 1).Draw(t, "i")})
+			return []c11nOp{{K: "issue", I: rapid.IntRange(0, 1).Draw(t, "i")}}
 		case "reg-genuine":
-			c.Ops = append(c.Ops, c11nOp{K: "reg", C: rapid.Uint32().Draw(t, "c"), V: rapid.SampledFrom(c11nGenuine).Draw(t, "v")})
+			return []c11nOp{{K: "reg", C: rapid.Uint32().Draw(t, "c"), V: rapid.SampledFrom(c11nGenuine).Draw(t, "v")}}
 		case "reg-forged":
 			op := c11nOp{K: "reg", C: rapid.Uint32().Draw(t, "c"), V: rapid.SampledFrom(c11nForged).Draw(t, "v")}
-			mut(&op)
-			c.Ops = append(c.Ops, op)
+			mut(t, &op)
+			return []c11nOp{op}
 		case "verify":
-			c.Ops = append(c.Ops, c11nOp{K: "verify", C: rapid.Uint32().Draw(t, "c")})
+			return []c11nOp{{K: "verify", C: rapid.Uint32().Draw(t, "c")}}
 		case "reopen":
-			c.Ops = append(c.Ops, c11nOp{K: "reopen", V: rapid.SampledFrom([]string{"restart", "restore"}).Draw(t, "v")})
+			return []c11nOp{{K: "reopen", V: rapid.SampledFrom([]string{"restart", "restore"}).Draw(t, "v")}}
 		case "sc-before":
 			// the revocation reaches the node before the credential is seen there for the first time
-			c.Ops = append(c.Ops, c11nOp{K: "issue", I: rapid.IntRange(0, 1).Draw(t, "i")},
-				c11nOp{K: "reg", L: true, V: rapid.SampledFrom(c11nGenuine).Draw(t, "v")}, c11nOp{K: "verify", L: true})
-		case "sc-forged-then-verify":
+			return []c11nOp{{K: "issue", I: rapid.IntRange(0, 1).Draw(t, "i")},
+				{K: "reg", L: true, V: rapid.SampledFrom(c11nGenuine).Draw(t, "v")}, {K: "verify", L: true}}
+		default: // sc-forged-then-verify
 			op := c11nOp{K: "reg", C: rapid.Uint32().Draw(t, "c"), V: rapid.SampledFrom(c11nForged).Draw(t, "v")}
-			mut(&op)
-			c.Ops = append(c.Ops, op, c11nOp{K: "verify", C: op.C})
+			mut(t, &op)
+			return []c11nOp{op, {K: "verify", C: op.C}}
 		}
+	})
+	for _, st := range rapid.SliceOfN(step, 2, 14).Draw(t, "steps") {
+		if len(c.Ops)+len(st) > 20 {
+			break
+		}
+		c.Ops = append(c.Ops, st...)
 	}
 	return c
 }
